@@ -52,6 +52,7 @@ fn final_script(first: &ConnectSpec, keep_session: bool) -> ConnScript {
             keep_session,
             props: ConnackProps { server_keepalive: None, assigned_id: None, extra: vec![], ..first.props.clone() },
             io: IoCfg::default(),
+            lost_pubrecs: false,
         },
         steps: final_steps(),
         end: EndHow::Drop,
